@@ -190,3 +190,91 @@ Proof.
     cbn [fst map]. rewrite (IHx Hx). specialize (IHl Hl (pc + zlen (compile_e x))%Z ind). rewrite Er in IHl. cbn [fst] in IHl. rewrite IHl. reflexivity.
 Qed.
 Print Assumptions gen_lingo_is_render.
+
+(* ---- statement lines ---- *)
+Definition target_text (en : env) (props : list string) (t : target) : string :=
+  match t with
+  | TLoc i => name_of (nth i (e_locals en) (Leaf KLocal "" 0 true))
+  | TPar i => name_of (nth i (e_params en) (Leaf KParam "" 0 true))
+  | TGlob n => nm en n
+  | TProp n => if mem_str (nm en n) props || mem_str (nm en n) VARIABLE_KNOWN_SYMBOLS then nm en n else ("the " ++ nm en n)%string
+  end.
+(* the canonical Lingo line of a statement (without indentation and line end) *)
+Definition stmt_text (en : env) (props : list string) (s : stmt) : string :=
+  match s with
+  | SSet t e => ("set " ++ target_text en props t ++ " = " ++ render en (pp_tok en e))%string
+  | SCallS f args =>
+    match args with
+    | [] => nm en f
+    | _ => (nm en f ++ " " ++ join ", " (map (fun e => render en (pp_tok en e)) args))%string
+    end
+  | SLCallS f args =>
+    match args with
+    | [] => nth f (e_lfuncs en) ""
+    | _ => (nth f (e_lfuncs en) "" ++ " " ++ join ", " (map (fun e => render en (pp_tok en e)) args))%string
+    end
+  end.
+
+Definition leaf_like (k : lclass) (n : node) : Prop := match n with Leaf k' _ _ _ => k' = k | _ => False end.
+Definition text_ok_s (en : env) (props : list string) (s : stmt) : Prop :=
+  match s with
+  | SSet t e =>
+    text_ok en e /\ starts_with "field(" (target_text en props t) = false /\
+    match t with
+    | TLoc i => leaf_like KLocal (nth i (e_locals en) (Leaf KLocal "" 0 true))
+    | TPar i => leaf_like KParam (nth i (e_params en) (Leaf KParam "" 0 true))
+    | _ => True
+    end
+  | SCallS f args => lingo_plain_call (nm en f) = true /\ text_ok_args en args
+  | SLCallS f args => lingo_plain_call (nth f (e_lfuncs en) "") = true /\ text_ok_args en args
+  end.
+
+Lemma args_text en l : text_ok_args en l -> forall pc ind,
+  map (fun n => gen_lingo n ind) (fst (reify_args en pc l)) = map (fun e => render en (pp_tok en e)) l.
+Proof.
+  induction l as [|x l IH]; intros Hok pc ind; [reflexivity|]. destruct Hok as [Hx Hl]. cbn [reify_args].
+  destruct (reify_args en (pc + zlen (compile_e x))%Z l) as [ns pa] eqn:Er. cbn [fst map].
+  rewrite (gen_lingo_is_render en x Hx). specialize (IH Hl (pc + zlen (compile_e x))%Z ind). rewrite Er in IH. cbn [fst] in IH.
+  rewrite IH. reflexivity.
+Qed.
+
+Theorem stmt_line en props s : text_ok_s en props s -> forall pc ind,
+  gen_lingo (reify_s en props pc s) ind = (indent ind ++ stmt_text en props s ++ "
+")%string.
+Proof.
+  destruct s as [t e|f args|f args]; intros Hok pc ind.
+  - destruct Hok as (He & Hf & Ht). cbn [reify_s stmt_text]. unfold gen_lingo. cbn [gen_lingo_sp].
+    change (String.eqb "assign" "assign") with true. cbn iota.
+    pose proof (gen_lingo_is_render en e He pc ind) as E. unfold gen_lingo in E. rewrite E.
+    assert (Htt : gen_lingo_sp false (target_node en props (pc + zlen (compile_e e))%Z t) ind = target_text en props t).
+    { destruct t as [i|i|n|n]; cbn [target_node target_text].
+      - destruct (nth i (e_locals en) (Leaf KLocal "" 0 true)); try contradiction. cbn in Ht. subst k. reflexivity.
+      - destruct (nth i (e_params en) (Leaf KParam "" 0 true)); try contradiction. cbn in Ht. subst k. reflexivity.
+      - reflexivity.
+      - destruct (mem_str (nm en n) props); [reflexivity|]. cbn [orb gen_lingo_sp].
+        destruct (mem_str (nm en n) VARIABLE_KNOWN_SYMBOLS); reflexivity. }
+    rewrite Htt, Hf. cbn [andb]. repeat rewrite sappend_assoc. reflexivity.
+  - destruct Hok as [Hp Hl]. cbn [reify_s stmt_text]. destruct (reify_args en pc args) as [ns pa] eqn:Er.
+    unfold gen_lingo. cbn [gen_lingo_sp]. rewrite (gv_none_l _ _ Hp). cbn [set_last].
+    pose proof (args_text en args Hl pc ind) as E. unfold gen_lingo in E. rewrite Er in E. cbn [fst] in E.
+    rewrite map_rev, rev_involutive, E.
+    unfold lingo_plain_call in Hp. apply andb_true_iff in Hp. destruct Hp as [Hs _]. apply negb_true_iff in Hs.
+    destruct args as [|x l'].
+    + cbn [reify_args] in Er. injection Er as <- <-. reflexivity.
+    + destruct (rev ns) as [|n0 nr] eqn:En.
+      { exfalso. apply (f_equal (@length node)) in En. rewrite rev_length in En.
+        pose proof (reify_args_len en (x :: l') pc) as HL. rewrite Er in HL. cbn [fst length] in *. lia. }
+      rewrite Hs. cbn [negb andb]. repeat rewrite sappend_assoc. reflexivity.
+  - destruct Hok as [Hp Hl]. cbn [reify_s stmt_text]. destruct (reify_args en pc args) as [ns pa] eqn:Er.
+    unfold gen_lingo. cbn [gen_lingo_sp]. rewrite (gv_none_l _ _ Hp). cbn [set_last].
+    pose proof (args_text en args Hl pc ind) as E. unfold gen_lingo in E. rewrite Er in E. cbn [fst] in E.
+    rewrite map_rev, rev_involutive, E.
+    unfold lingo_plain_call in Hp. apply andb_true_iff in Hp. destruct Hp as [Hs _]. apply negb_true_iff in Hs.
+    destruct args as [|x l'].
+    + cbn [reify_args] in Er. injection Er as <- <-. reflexivity.
+    + destruct (rev ns) as [|n0 nr] eqn:En.
+      { exfalso. apply (f_equal (@length node)) in En. rewrite rev_length in En.
+        pose proof (reify_args_len en (x :: l') pc) as HL. rewrite Er in HL. cbn [fst length] in *. lia. }
+      rewrite Hs. cbn [negb andb]. repeat rewrite sappend_assoc. reflexivity.
+Qed.
+Print Assumptions stmt_line.
